@@ -374,7 +374,7 @@ def k4_sites(prog, ctx):
                     defs.setdefault(st.targets[0].id, []).append(st.value)
             ra = src(defs[ta][0]) if ta in defs and len(defs[ta]) == 1 else ta
             rb = src(defs[tb][0]) if tb in defs and len(defs[tb]) == 1 else tb
-            if kinds and (ta, tb) in kinds:
+            if kinds and ((ta, tb) in kinds or (ra, rb) in kinds):
                 ctx.ok("K4", "%s:%d" % (m.rel, c.lineno), "%s: window (%s, %s) = the scope the genes were fetched for" % (q, ta, tb))
             elif recv and ta == recv + ".all_read_region_start" and tb == recv + ".all_read_region_end":
                 ctx.ok("K4", "%s:%d" % (m.rel, c.lineno), "%s: restores the stored window of the same object" % q)
